@@ -792,6 +792,8 @@ def _run_case(env: Env, case: dict[str, Any], scratch: str, want_trace: bool) ->
             counters["baseline_ops"] = K
         plans = enumerate_single_faults(base_log, rng, tier)
         cap = 700 if tier == "quick" else 2500
+        if any("f" in e and len(j2b(e["f"]) or b"") > 400_000 for e in case["tree"].values()):
+            cap = min(cap, 400)  # every execution over a > 1 MiB document costs about 0.3 s (much more on a busy machine)
         if len(plans) > cap:
             # a very long operation sequence (large file written in many pieces): keep every plan
             # on non-data operations and a seeded sample of the data-operation plans
